@@ -415,6 +415,37 @@ theorem sink_int_sql (c : Cls) (hc : isSql c = true) (isId : Bool) (i : Int) :
       if int64 i then .ok (if isId then .int i else .text (toString i)) else .error .overflow := by
   cases c <;> first | rfl | cases hc
 
+/-! ### the SQL script's `str` encoder `_reject_nul` (fix e8cf4d3) -/
+
+theorem cleanup_sqlText_str (s : String) :
+    cleanup .sqlText (.str s) = if hasNul s then .error .encoderRaises else .ok (.str s) := by
+  show (match (if hasNul s then Option.none else some (Val.str s)) with
+        | some x => Except.ok x | Option.none => Except.error EncErr.encoderRaises) = _
+  cases hasNul s <;> rfl
+
+theorem not_mem_of_hasNul_false {s : String} (h : hasNul s = false) : Char.ofNat 0 ∉ s.toList := by
+  intro hm
+  have : hasNul s = true := List.contains_iff_mem.2 hm
+  rw [h] at this; cases this
+
+/-- strings without a NUL character are untouched by the dump (`quote()`) -/
+theorem truncNul_of_no_nul (s : String) (h : Char.ofNat 0 ∉ s.toList) : truncNul s = s := by
+  unfold truncNul
+  have key : ∀ l : List Char, Char.ofNat 0 ∉ l → l.takeWhile (fun c => c != Char.ofNat 0) = l := by
+    intro l
+    induction l with
+    | nil => intro _; rfl
+    | cons a l ih =>
+      intro hl
+      have ha : (a != Char.ofNat 0) = true := by
+        simp only [bne_iff_ne, ne_eq]
+        intro e
+        exact hl (e ▸ List.mem_cons_self)
+      rw [List.takeWhile_cons, ha]
+      simp only [if_true]
+      rw [ih (fun hm => hl (List.mem_cons_of_mem _ hm))]
+  rw [key _ h, String.ofList_toList]
+
 /-! ### multiplexing -/
 
 theorem runMux_nil {σ α ε : Type} (w : α → σ → Except ε σ) (as : List α) :
